@@ -22,20 +22,21 @@ func (c20) NumCases(tier string) int {
 	if tier == "thorough" {
 		return 64*4*3*8 + 30000
 	}
-	return 64*4*2 + 1500
+	return 64*4*5 + 1500
 }
 
 var c20Sizes = []int{0, 1, 100, 8449, 65535, 65536, 65537, 131072, 131073, 200000, 262144, 1 << 20}
 
 func (c20) Run(c *mon.Ctx, i int) {
 	r := c.R
-	nper := 64 * 4 * 2
+	nper := 64 * 4 * 5
 	if c.Tier == "thorough" {
 		nper = 64 * 4 * 3 * 8
 	}
 	var s Setting
 	var d gen.Data
 	periodic := 0
+	alpha := 256
 	if i < nper {
 		period := i%64 + 1
 		n := []int{65536, 65537, 100000, 300000}[(i/64)%4]
@@ -45,6 +46,26 @@ func (c20) Run(c *mon.Ctx, i int) {
 			s = accelSettings[[]int{0, 1, 2, 4, 5, 6, 0, 4}[k%8]]
 		}
 		d = gen.Periodic(r, n, period)
+		switch cls := (i / 256) % 5; cls {
+		case 1, 2:
+			// random pattern over 2 / 3 symbols: short n-grams recur inside the unit
+			alpha = cls + 1
+			d = gen.PeriodicAlpha(r, n, period, alpha)
+		case 3:
+			alpha = r.Pick(4, 16)
+			d = gen.PeriodicAlpha(r, n, period, alpha)
+		case 4:
+			// few symbols but every cyclic 4-gram of the unit distinct: the newest
+			// candidate for any 4 bytes is exactly one period back
+			alpha = r.Pick(3, 3, 4, 5)
+			if u, ok := gen.DistinctGramUnit(r, period, alpha, 4); ok {
+				b := make([]byte, n)
+				for j := range b {
+					b[j] = u[j%len(u)]
+				}
+				d = gen.Data{Desc: fmt.Sprintf("period%d-alpha%d-distinct4grams/%d", period, alpha, n), B: b}
+			}
+		}
 		periodic = period
 	} else if k := i - nper; k < 8*2*3 {
 		// fixed core: one dominant byte value among high-entropy bytes, at sizes
@@ -84,7 +105,15 @@ func (c20) Run(c *mon.Ctx, i int) {
 	c.Max(fmt.Sprintf("worst (out-n)/(n/32+256) at %s", s), float64(len(out)-n)/float64(n/32+256))
 	if periodic > 0 && s.Level != -2 {
 		pb := n/32 + 1200
+		c.Max(fmt.Sprintf("worst out/(n/32+1200) periodic, pattern alphabet %d", alpha), float64(len(out))/float64(pb))
 		if len(out) > pb {
+			desc["pattern_alphabet"] = alpha
+			desc["period"] = periodic
+			if period := periodic; period <= len(d.B) && gen.HasRepeatedGram(d.B[:period], 4) {
+				// the listed limitation: some 4 bytes of the unit also occur elsewhere in the unit
+				c.Violate(sigRepeated4gram, fmt.Sprintf("%s, period %d over %d symbols, n=%d: %d bytes out, bound n/32+1200 = %d; %s", s, periodic, alpha, n, len(out), pb, whatRepeated4gram), desc)
+				return
+			}
 			c.Violate(fmt.Sprintf("repeats-not-found|level=%d|win4k=%v", s.Level, s.Win4K), fmt.Sprintf("%s, period %d, n=%d: %d bytes out, bound n/32+1200 = %d", s, periodic, n, len(out), pb), desc)
 			return
 		}
@@ -99,3 +128,12 @@ func (c20) Run(c *mon.Ctx, i int) {
 		c.Sample(desc)
 	}
 }
+
+// The match finders keep one position per hash of 4 bytes (the newest). When
+// 4 bytes of the period unit also occur elsewhere in the unit, the newest
+// occurrence is closer than one period and matches only a few bytes, so the
+// output is several times the stated bound (it still shrinks 5-10x). The
+// signature names that circumstance; units whose 4-grams are all distinct are
+// not covered by it.
+const sigRepeated4gram = "repeats-not-found|period-unit-has-a-repeated-4-gram"
+const whatRepeated4gram = "the period unit contains 4 bytes that occur twice in it, so the single-candidate match finder latches onto the nearer occurrence"
